@@ -6,7 +6,8 @@
 //	A  common.BigIntToNeoBytes / BigIntFromNeoBytes   vs  refNeo / refFromNeo (bit-length arithmetic)
 //	B  common.I128FromBigInt / ToBigInt / ToNumString / I128FromUint64 / I128FromInt64 / U128
 //	C  native/utils EncodeVarUint / DecodeVarUint      vs  refNativeVarUint (uint64 arithmetic only)
-//	   + "exactly one encoding": whatever DecodeVarUint accepts must be the reference encoding
+//	   + soundness of the decoder on byte strings no uint64 encodes to (negative, >64 bit, truncated);
+//	     non-canonical forms accepted with the right value are counted, not judged (see judgeNative)
 //	D  states.NativeTokenBalance <-> StorageItem on [0, 10^27]
 package main
 
@@ -87,73 +88,69 @@ func refNativeVarUint(v uint64) []byte {
 	return append([]byte{byte(len(body))}, body...)
 }
 
-// refNativeDecode parses the reference format at the start of b.
-// ok=false with a reason when b does not start with the encoding of any uint64.
+// refNativeDecode parses a native-format integer at the start of b with the reference rules.
+// why == "" (ok): b starts with THE encoding (refNativeVarUint) of the uint64 v, n bytes long.
+// Otherwise why names the first thing that is wrong:
+//
+//	truncated                 header or body overruns b
+//	negative / over-64-bit    the body is the two's complement of a number outside uint64
+//	nonminimal-length-prefix  } a non-canonical byte form of the in-range value v (n bytes long):
+//	nonminimal-body           } the long 0xFD/0xFE/0xFF length form, or a zero-padded body
 func refNativeDecode(b []byte) (v uint64, n int, ok bool, why string) {
-	if len(b) == 0 {
-		return 0, 0, false, "truncated"
-	}
-	L := int(b[0])
-	hdr := 1
-	var cnt uint64
-	switch b[0] {
-	case 0xFD, 0xFE, 0xFF:
-		w := map[byte]int{0xFD: 2, 0xFE: 4, 0xFF: 8}[b[0]]
+	cnt, hdr64, prefixMinimal, complete := func() (cnt, hdr uint64, minimal, complete bool) {
+		if len(b) == 0 {
+			return
+		}
+		w := 0
+		switch b[0] {
+		case 0xFD:
+			w = 2
+		case 0xFE:
+			w = 4
+		case 0xFF:
+			w = 8
+		default:
+			return uint64(b[0]), 1, true, true
+		}
 		if len(b) < 1+w {
-			return 0, 0, false, "truncated"
+			return
 		}
 		for i := w; i >= 1; i-- {
 			cnt = cnt<<8 | uint64(b[i])
 		}
-		hdr = 1 + w
-		min := uint64(0xFD)
-		if w == 4 {
-			min = 0x10000
-		} else if w == 8 {
-			min = 0x100000000
-		}
-		if cnt < min {
-			if cnt > uint64(len(b)-hdr) {
-				return 0, 0, false, "truncated"
-			}
-			return 0, 0, false, "nonminimal-length-prefix"
-		}
-		if cnt > uint64(len(b)-hdr) {
-			return 0, 0, false, "truncated"
-		}
-		L = int(cnt)
-	default:
-		if L > len(b)-1 {
-			return 0, 0, false, "truncated"
-		}
+		lowest := map[int]uint64{2: 0xFD, 4: 0x10000, 8: 0x100000000}[w]
+		return cnt, uint64(1 + w), cnt >= lowest, true
+	}()
+	if !complete || cnt > uint64(len(b))-hdr64 {
+		return 0, 0, false, "truncated"
 	}
+	hdr, L := int(hdr64), int(cnt)
 	body := b[hdr : hdr+L]
-	if L == 0 {
-		return 0, hdr, true, ""
-	}
-	if body[L-1]&0x80 != 0 {
+	n = hdr + L
+	if L > 0 && body[L-1]&0x80 != 0 {
 		return 0, 0, false, "negative"
 	}
-	if body[L-1] == 0 && (L == 1 || body[L-2]&0x80 == 0) {
-		// a padded (sign-extended) body; tell padded-but-in-range from out-of-range
-		k := L
-		for k > 0 && body[k-1] == 0 {
-			k--
-		}
-		if k > 8 {
-			return 0, 0, false, "over-64-bit"
-		}
-		return 0, 0, false, "nonminimal-body"
+	k := L // significant bytes: the body without its trailing zero bytes
+	for k > 0 && body[k-1] == 0 {
+		k--
 	}
-	if L > 9 || (L == 9 && body[8] != 0) {
+	if k > 8 {
 		return 0, 0, false, "over-64-bit"
 	}
-	for i := L - 1; i >= 0; i-- {
-		if i < 8 {
-			v = v<<8 | uint64(body[i])
-		}
+	for i := k - 1; i >= 0; i-- {
+		v = v<<8 | uint64(body[i])
 	}
-	return v, hdr + L, true, ""
+	minimalLen := k
+	if k > 0 && body[k-1]&0x80 != 0 {
+		minimalLen = k + 1 // one zero byte keeps the number non-negative
+	}
+	switch {
+	case !prefixMinimal:
+		return v, n, false, "nonminimal-length-prefix"
+	case L != minimalLen:
+		return v, n, false, "nonminimal-body"
+	}
+	return v, n, true, ""
 }
 
 // ---------------------------------------------------------------- plumbing
@@ -532,7 +529,14 @@ func decodeNative(b []byte) (v uint64, n uint64, err error, panicked interface{}
 	return
 }
 
-// judgeNative: the "exactly one encoding" clause on an arbitrary byte string.
+// judgeNative runs the real decoder on an arbitrary byte string and compares with the
+// reference.  Verdicts (triage decision recorded in the run's notes): the property ranges over
+// integers and constrains what the ENCODER emits, so
+//   - a byte string no uint64 encodes to because its number is negative or above 2^64, or that
+//     is truncated, must not decode to some uint64                                  -> violation
+//   - a non-canonical byte form (long length prefix / zero-padded body) that the decoder
+//     accepts WITH THE VALUE OF ITS CANONICAL NORMALISATION is only counted (info_*), exactly
+//     like BigIntFromNeoBytes accepting sign-padded forms; with any other value    -> violation
 func judgeNative(a *acc, b []byte, src string) {
 	r := a.r
 	a.evals++
@@ -542,14 +546,24 @@ func judgeNative(a *acc, b []byte, src string) {
 		return
 	}
 	want, wn, ok, why := refNativeDecode(b)
+	noncanonical := why == "nonminimal-body" || why == "nonminimal-length-prefix"
 	switch {
+	case err == nil && !ok && noncanonical:
+		if got == want && n == uint64(wn) {
+			if why == "nonminimal-body" {
+				a.count("info_native_varuint_decoder_accepts_padded_body")
+			} else {
+				a.count("info_native_varuint_decoder_accepts_long_length_prefix")
+			}
+			return
+		}
+		a.count("native_real_accept/ref_reject")
+		r.Violation("native-varuint:noncanonical-form-wrong-value:"+why, "DecodeVarUint accepted a non-canonical byte form with a value (or length) other than that of its canonical normalisation",
+			map[string]interface{}{"bytes": hx(b), "returned": got, "consumed": n, "value_of_normalisation": want, "length": wn, "src": src})
 	case err == nil && !ok:
 		a.count("native_real_accept/ref_reject")
-		if a.counts["native_real_accept/ref_reject:"+why]++; a.counts["native_real_accept/ref_reject:"+why] > 20 {
-			return // the same clause already reported 20 times from this chunk: counted, witness not rebuilt
-		}
-		r.Violation("native-varuint:accepts-second-encoding:"+why, fmt.Sprintf("DecodeVarUint accepted a byte form (%s) that is not the one encoding of the returned value", why),
-			map[string]interface{}{"bytes": hx(b), "returned": got, "consumed": n, "canonical_encoding_of_returned": hx(refNativeVarUint(got)), "src": src})
+		r.Violation("native-varuint:accepts-invalid:"+why, fmt.Sprintf("DecodeVarUint returned a uint64 for a byte string that is %s (no uint64 encodes to it)", why),
+			map[string]interface{}{"bytes": hx(b), "returned": got, "consumed": n, "src": src})
 	case err != nil && ok:
 		a.count("native_real_reject/ref_accept")
 		r.Violation("native-varuint:rejects-canonical", "DecodeVarUint rejected the canonical encoding of a uint64: "+err.Error(),
@@ -961,13 +975,14 @@ func main() {
 		"neo_dec_minimal/pos", "neo_dec_minimal/neg", "neo_dec_minimal/zero", "neo_dec_padded/pos", "neo_dec_padded/neg", "neo_dec_padded/zero",
 		"i128_in_range_pos", "i128_in_range_neg", "i128_out_of_range_pos", "i128_out_of_range_neg", "i128_int64", "i128_uint64", "i128_bytes",
 		"native_accept", "native_alt_long_prefix", "native_alt_padded_body", "native_truncated", "native_alt_negative", "native_alt_over64", "native_random_bytes",
-		"native_reject:truncated", "native_reject:nonminimal-length-prefix", "native_reject:negative", "native_reject:over-64-bit",
+		"native_reject:truncated", "native_reject:negative", "native_reject:over-64-bit",
 		"native_enc_len1", "native_enc_len2", "native_enc_len9", "native_enc_len10",
 		"balance_whole", "balance_fractional", "balance_edge_values", "balance_same_value_add-sub", "balance_same_value_shrunk-bigint", "balance_same_value_parsed",
 	} {
 		r.Require(k, 1)
 	}
 	r.Assume("balances are drawn from [0, 10^27] (10^18 whole tokens fits uint64; MustToStorageItem is documented to panic beyond 2^64 whole tokens)")
+	r.Extra("note_native_varuint_decoder", "DecodeVarUint accepts zero-padded bodies (e.g. 01 00 -> 0, canonical 00) because its body goes through BigIntFromNeoBytes, which normalises sign-padded forms by design; counter info_native_varuint_decoder_accepts_padded_body. Triage: C21 quantifies over integers and requires the ENCODERS to be minimal and a function of the value; decoder leniency with the correct value is observed, not judged. A non-canonical form decoded to any other value, and negative / >64-bit / truncated forms decoded to a uint64, remain violations")
 	r.Assume("DecodeVarUintWrapping is lossy above 2^64 by its declared purpose and is judged only on canonical encodings")
 	r.Finish()
 }
